@@ -228,7 +228,7 @@ def make_function(world, fid, sig, kind='func', is_mw=False, meta=None):
 
 
 _MW_CLASSES = {}
-_MW_BASE_FLAGS = {0: (True, True), 2: (True, True), 4: (False, True)}     # must agree with gen_config.TYPES
+_MW_BASE_FLAGS = {0: (True, True), 2: (True, True), 4: (False, True), 20: (True, True)}     # must agree with gen_config.TYPES
 
 
 def mw_class(tid, unique, reorderable):
@@ -245,7 +245,25 @@ def mw_class(tid, unique, reorderable):
     return _MW_CLASSES[key]
 
 
+_SHARED = {}
+
+
 def make_mw(world, mwid, mw):
+    if mw.get('share'):
+        # one instance of a non-unique type listed at several places of the stack
+        key = (id(world), mw['tid'])
+        if key in _SHARED:
+            return _SHARED[key]
+        mwid = 'SH%d' % mw['tid']
+        if len(_SHARED) > 200:
+            _SHARED.clear()
+        inst = _make_mw(world, mwid, mw)
+        _SHARED[key] = inst
+        return inst
+    return _make_mw(world, mwid, mw)
+
+
+def _make_mw(world, mwid, mw):
     inst = mw_class(mw['tid'], mw.get('unique', True), mw.get('reorderable', True))()
     inst._mwid = mwid
     for phase, pl in PHASES:
@@ -326,7 +344,7 @@ def build(cfg, world=None, error_handler='reraise', stage_hook=None):
         rn = None
         if rt.get('rn') is not None:
             rn = make_function(w, 'rn', rt['rn'], rt.get('rn_kind', 'func'), False, {'kind': 'rn'})
-        pattern = '/r' + ''.join('/<%s>' % u for u in rt.get('url') or [])
+        pattern = '/r' + ''.join(url_binding(rt, u) for u in rt.get('url') or [])
         res = {}
         for n in rt.get('res') or []:
             res[n] = w.resources.setdefault(('R', n), Sent('res:R:%s' % n))
@@ -394,10 +412,27 @@ def build(cfg, world=None, error_handler='reraise', stage_hook=None):
     return b
 
 
+def url_binding(rt, name):
+    """'/<a>', '/<a:int>', '/<a?float>' ... according to rt['url_types'] = {name: [type, op]}"""
+    typ, op = (rt.get('url_types') or {}).get(name, ['', ''])
+    return '/<%s%s%s>' % (name, op or (':' if typ else ''), typ)
+
+
 def request_path(cfg, built, reqno):
     import re as _re
-    segs = ['u-%s-%d' % (u, reqno) for u in cfg['route'].get('url') or []]
-    values = dict(zip(cfg['route'].get('url') or [], segs))
+    rt = cfg['route']
+    segs, values = [], {}
+    for u in rt.get('url') or []:
+        typ = (rt.get('url_types') or {}).get(u, ['', ''])[0]
+        if typ == 'int':
+            segs.append(str(reqno - 1))             # the first request carries 0
+            values[u] = reqno - 1
+        elif typ == 'float':
+            segs.append('%d.0' % (reqno - 1))
+            values[u] = float(reqno - 1)
+        else:
+            segs.append('u-%s-%d' % (u, reqno))
+            values[u] = segs[-1]
     pnames = _re.findall(r'<([A-Za-z_]\w*)>', built.prefix)
     prefix = built.prefix
     for n in pnames:
@@ -436,9 +471,9 @@ def tag(cfg):
     out = {'levels': [], 'route': dict(cfg['route']), 'build': cfg.get('build')}
     for i, lv in enumerate(cfg['levels']):
         l2 = dict(lv)
-        l2['mws'] = [dict(m, _id='%s.m%d' % (level_key(i), j)) for j, m in enumerate(lv.get('mws') or [])]
+        l2['mws'] = [dict(m, _id=('SH%d' % m['tid']) if m.get('share') else '%s.m%d' % (level_key(i), j)) for j, m in enumerate(lv.get('mws') or [])]
         out['levels'].append(l2)
-    out['route']['mws'] = [dict(m, _id='R.m%d' % j) for j, m in enumerate(cfg['route'].get('mws') or [])]
+    out['route']['mws'] = [dict(m, _id=('SH%d' % m['tid']) if m.get('share') else 'R.m%d' % j) for j, m in enumerate(cfg['route'].get('mws') or [])]
     return out
 
 
